@@ -54,8 +54,10 @@ impl Curve25519Legacy {
 
     /// Reads the value in the reverse order (little endian), because..PGP screwed up
     pub fn try_from_bytes_rev(bytes: &[u8]) -> Result<Self> {
-        let rev: Vec<u8> = bytes.iter().rev().copied().collect();
-        let secret_raw = pad_key::<32>(&rev)?;
+        // `bytes` is a big endian MPI value, its leading zero octets are stripped: restore them
+        // before turning the value around
+        let mut secret_raw = pad_key::<32>(bytes)?;
+        secret_raw.reverse();
         let secret = x25519_dalek::StaticSecret::from(secret_raw);
         Ok(Self(secret))
     }
@@ -229,7 +231,8 @@ impl SecretKey {
 
                 // create scalar and reverse to little endian
                 // https://www.rfc-editor.org/rfc/rfc9580.html#name-curve25519legacy-ecdh-secre
-                Mpi::from_raw(bytes.to_vec().into())
+                // (an MPI: leading zero octets of an unclamped scalar are not written)
+                Mpi::from_slice(&bytes)
             }
             Self::P256 { secret, .. } => Mpi::from_slice(&secret.to_bytes()),
             Self::P384 { secret, .. } => Mpi::from_slice(&secret.to_bytes()),
